@@ -48,6 +48,20 @@ fn refusal(kinds: u32, justified: bool) {
     }
 }
 
+/// The async builder obtained through the library's own entry points (every field is filled the way the
+/// library fills it, whatever fields it has); only the poll function's address is then replaced by the
+/// target under test. `None` = the unchecked entry point.
+fn async_builder<'a>(inj: &'a mut InjectorPP, target: FuncPtrInternal, sig: Option<&'static str>) -> WhenCalledBuilderAsync<'a> {
+    let mut fut = std::future::ready(0u32);
+    let pinned = std::pin::Pin::new(&mut fut);
+    let mut b = match sig {
+        Some(s) => inj.when_called_async((pinned, s)),
+        None => unsafe { inj.when_called_async_unchecked(pinned) },
+    };
+    b.when = WhenCalled::new(target);
+    b
+}
+
 fn arena_fp(off: usize, sig: &'static str) -> FuncPtr {
     unsafe { FuncPtr::new(os::mem_ptr(off) as *const (), sig) }
 }
@@ -229,7 +243,7 @@ fn c09_gate_async() {
     refusal(bit(K_SIG_MISMATCH), !same);
     let mut inj = InjectorPP::new();
     // the builder is what when_called_async returns; its fields are filled the same way
-    let builder = WhenCalledBuilderAsync { lib: &mut inj, when: WhenCalled::new(fp(os::mem_ptr(0))), expected_signature: sa };
+    let builder = async_builder(&mut inj, fp(os::mem_ptr(0)), Some(sa));
     builder.will_return_async(int_fp(0x1000, sb));
     unsafe {
         assert!(same, "OBL:C09.gate.async.refuses: an async value of another output type is never installed");
@@ -290,7 +304,7 @@ pub(crate) fn pair_case(gate: u8, expected: &'static str, got: &'static str, sam
     } else if gate == 1 {
         inj.when_called(arena_fp(0, expected)).will_execute((int_fp(0x1000, got), CallCountVerifier::Dummy));
     } else {
-        let builder = WhenCalledBuilderAsync { lib: &mut inj, when: WhenCalled::new(fp(os::mem_ptr(0))), expected_signature: expected };
+        let builder = async_builder(&mut inj, fp(os::mem_ptr(0)), Some(expected));
         builder.will_return_async(int_fp(0x1000, got));
     }
     unsafe {
@@ -530,11 +544,11 @@ fn flavour_epilogue_order(inj: InjectorPP, k: usize) {
 fn c02_order_async_refake() {
     let mut inj = InjectorPP::new();
     let t = 0x1000usize;
-    let b1 = WhenCalledBuilderAsync { lib: &mut inj, when: WhenCalled::new(fp_int(t)), expected_signature: "P" };
+    let b1 = async_builder(&mut inj, fp_int(t), Some("P"));
     b1.will_return_async(int_fp(0x2000, "P"));
-    let b2 = WhenCalledBuilderAsync { lib: &mut inj, when: WhenCalled::new(fp_int(t)), expected_signature: "" };
+    let b2 = async_builder(&mut inj, fp_int(t), None);
     unsafe { b2.will_return_async_unchecked(int_fp(0x3000, "")) };
-    let b3 = WhenCalledBuilderAsync { lib: &mut inj, when: WhenCalled::new(fp_int(t)), expected_signature: "P" };
+    let b3 = async_builder(&mut inj, fp_int(t), Some("P"));
     b3.will_return_async(int_fp(0x4000, "P"));
     flavour_epilogue_order(inj, 3);
 }
@@ -547,9 +561,9 @@ fn c02_order_async_refake() {
 fn c02_order_async_refake2() {
     let mut inj = InjectorPP::new();
     let t = 0x1000usize;
-    let b1 = WhenCalledBuilderAsync { lib: &mut inj, when: WhenCalled::new(fp_int(t)), expected_signature: "" };
+    let b1 = async_builder(&mut inj, fp_int(t), None);
     unsafe { b1.will_return_async_unchecked(int_fp(0x2000, "")) };
-    let b2 = WhenCalledBuilderAsync { lib: &mut inj, when: WhenCalled::new(fp_int(t)), expected_signature: "" };
+    let b2 = async_builder(&mut inj, fp_int(t), None);
     unsafe { b2.will_return_async_unchecked(int_fp(0x3000, "")) };
     flavour_epilogue_order(inj, 2);
 }
